@@ -1308,12 +1308,6 @@ private:
     std::string str;
     while (_pos < _text.size() && _text[_pos] != '"')
     {
-      if (str.size() > _limits.stringLengthMax)
-      {
-        _error = "String length exceeds limit";
-        return false;
-      }
-
       if (_text[_pos] == '\\')
       {
         ++_pos;
@@ -1402,6 +1396,12 @@ private:
         str += _text[_pos];
       }
       ++_pos;
+
+      if (str.size() > _limits.stringLengthMax)
+      {
+        _error = "String length exceeds limit";
+        return false;
+      }
     }
 
     if (_pos >= _text.size())
